@@ -311,6 +311,10 @@ Partition ==
 LastEv == Rec[l - 1]
 ReadsServe == (l > 1 /\ LastEv.e = "reads") => LastEv.bad = 0
 HealWorks == (l > 1 /\ LastEv.e = "heal") => LastEv.ok
+\* after an outage in which only record writes failed and every clean-up write succeeded (fault mode 3)
+\* nothing is indeterminate and nothing has leaked: the next flush on the healthy device succeeds
+\* (C05: space released by failed batches returns to the free pool exactly; C09: failures are contained)
+OutageHeals == (l > 1 /\ LastEv.e = "heal" /\ LastEv.mode = 3) => LastEv.how = "flush"
 
 \* C04: recovery's repairs only ever touch blocks that belong to no live record
 \* (only the newest write needs checking in each state: the earlier ones were checked when issued)
